@@ -20,7 +20,7 @@ def mime_of(t):
     return graphtage.FILETYPES_BY_TYPENAME[t].default_mimetype
 
 
-def write(t, doc) -> bytes:
+def write(t, doc, dialects=True) -> bytes:
     """Serialise `doc` (plain data for DATA_TYPES, table for csv, element spec for xml/html) with an independent writer."""
     # Each format is written in several of its own dialects (chosen deterministically from the document), so that a
     # loader path that only handles "the JSON subset" of JSON5, block-style YAML or XML plists is not the only one driven.
@@ -48,6 +48,15 @@ def write(t, doc) -> bytes:
         if variant % 5 == 1 and isinstance(doc, list) and len(doc) >= 2:
             # a stream of several documents ("---" separated) is loaded as the list of those documents
             return yaml.safe_dump_all(doc, default_flow_style=style, allow_unicode=uni, explicit_start=True).encode("utf-8")
+        if variant % 7 == 2:
+            # every scalar quoted / written as a literal or folded block: non-strings then carry explicit tags (!!int "2")
+            import yaml as _y
+            text = _y.safe_dump(doc, default_style=['"', "'", "|", ">"][variant % 4], allow_unicode=False)
+            try:
+                if _y.safe_load(text) == doc:
+                    return text.encode("utf-8")
+            except Exception:
+                pass
         if variant % 3 == 0:
             # equal sub-containers become one shared object, which the dumper writes once with an anchor (&id001) and refers
             # to with aliases (*id001) afterwards; the loader then hands out the same Python object several times
@@ -61,11 +70,46 @@ def write(t, doc) -> bytes:
         return pickle.dumps(doc, protocol=2)
     if t == "csv":
         s = io.StringIO()
-        pycsv.writer(s).writerows(doc)
+        # dialect variants that parse to the same table: every field quoted; "\n" instead of "\r\n" between records
+        pycsv.writer(s, quoting=pycsv.QUOTE_ALL if variant % 3 == 1 and any(doc) else pycsv.QUOTE_MINIMAL,
+                     lineterminator="\n" if variant % 2 else "\r\n").writerows(doc)
         return s.getvalue().encode("utf-8")
     if t in ("xml", "html"):
-        return families.xml_text(doc).encode("utf-8")
+        if not dialects or variant % 4 == 0:
+            return families.xml_text(doc).encode("utf-8")
+        return xml_dialect_text(doc, variant).encode("utf-8")
     raise ValueError(t)
+
+
+def xml_dialect_text(x, variant):
+    """The same element tree in other legal spellings: XML declaration and comments, single-quoted attributes, CDATA sections,
+    character references, <a></a> vs <a/> (hand-rolled serialiser; what an XML parser reads from it is identical)."""
+    def esc(s):
+        return s.replace("&", "&amp;").replace("<", "&lt;").replace(">", "&gt;")
+
+    def esc_attr(s, q):
+        s = esc(s).replace(q, "&quot;" if q == '"' else "&apos;")
+        return s.replace("\n", "&#10;").replace("\r", "&#13;").replace("\t", "&#9;")
+
+    def ser(e):
+        t, at, tx, kids = e
+        q = "'" if variant % 2 else '"'
+        attrs = "".join(f" {k}={q}{esc_attr(v, q)}{q}" for k, v in at.items())
+        if not tx and not kids:
+            return f"<{t}{attrs}/>" if variant % 3 else f"<{t}{attrs}></{t}>"
+        body = ""
+        if tx:
+            if variant % 4 == 2 and "]]>" not in tx:
+                body = f"<![CDATA[{tx}]]>"
+            elif variant % 4 == 3:
+                body = f"&#x{ord(tx[0]):x};" + esc(tx[1:])
+            else:
+                body = esc(tx)
+        for k in kids:
+            body += ser(k) + ("<!-- a comment -->" if variant % 4 == 1 else "")
+        return f"<{t}{attrs}>{body}</{t}>"
+    head = '<?xml version="1.0" encoding="UTF-8"?>\n<!-- written by the harness -->\n' if variant % 4 == 1 else ""
+    return head + ser(x)
 
 
 def repr_text(o):
